@@ -59,6 +59,15 @@ APIS = ['scan', 'parse', 'compose', 'compose_all']
 BREAKS = re.compile('\r\n|[\n\r\x85\u2028\u2029]')
 
 
+def canaries():
+    """Fixed minimal reproducers of the listed known findings (kernel: one KNOWN-FINDING line per run)."""
+    base = {'label': 'canary', 'faults': [], 'sizes': [], 'then': None, 'only': None}
+    return {
+        'K3-c-parser-lone-surrogate': dict(base, is_text=True, base='a: \udc80\n'),
+        'K4-c-parser-uri-escape-invalid-utf8': dict(base, is_text=True, base='!a%c1%a1 x\n'),
+    }
+
+
 def plan(tier):
     if tier == 'quick':
         return {'runs': 36000, 'wall': 300, 'batch': 8, 'shrink_s': 60, 'selfcheck': 8}
